@@ -39,7 +39,7 @@ TNext == TStep /\ TLCSet(1, l')
 \* WalOrder's invariants along the trace.  Each of them can only be broken by a step whose guard already demands it for
 \* the page or header written in that step (Covered, WriteHeader), so they are a cross-check; evaluating them costs time
 \* linear in the number of pages of the file, hence in every state of short traces and in every 16th state of long ones.
-Every == IF Len(Trace) > 40000 THEN 16 ELSE 1
+Every == IF Len(Trace) > 8000 THEN 16 ELSE 1
 TWriteAhead == (l % Every = 0) => WriteAhead
 THeaderCovers == (l % Every = 0) => HeaderCovers
 TNoOrphanStamp == NoOrphanStamp
